@@ -5,16 +5,19 @@
 #include "oneapi/tbb/concurrent_priority_queue.h"
 
 namespace {
-struct PF { int throw_at = 0, copies = 0; bool armed = false; int live = 0; };
+struct PF { int throw_at = 0, copies = 0; bool armed = false; int live = 0; int out_throw_at = 0, out_assigns = 0; };
 PF* G = nullptr;
 struct pq_throw : std::exception {};
 struct Item {
     int prio; uint64_t id;
+    bool is_out = false;        // the caller's destination object of a try_pop (mode throw-out: the assignment into it may throw)
     Item(int p = 0, uint64_t i = 0) : prio(p), id(i) { G->live++; }
     Item(const Item& o) : prio(o.prio), id(o.id) { if (G->armed && ++G->copies == G->throw_at) { sim::fault_fired("throw-copy"); throw pq_throw(); } G->live++; }
     Item(Item&& o) : prio(o.prio), id(o.id) { G->live++; }
     Item& operator=(const Item& o) { if (G->armed && ++G->copies == G->throw_at) { sim::fault_fired("throw-copy"); throw pq_throw(); } prio = o.prio; id = o.id; return *this; }
-    Item& operator=(Item&& o) { prio = o.prio; id = o.id; return *this; }
+    Item& operator=(Item&& o) {
+        if (is_out && G->armed && G->out_throw_at && ++G->out_assigns == G->out_throw_at) { sim::fault_fired("throw-out-assign"); throw pq_throw(); }   // nothing modified yet
+        prio = o.prio; id = o.id; return *this; }
     ~Item() { G->live--; }
 };
 struct Less { bool operator()(const Item& a, const Item& b) const { return a.prio < b.prio; } };
@@ -43,11 +46,13 @@ SIM_SCENARIO(scen_c13, "c13", "C13", 600000, 3000) {
     hx::Desc d;
     PF pf; G = &pf;
     int nthreads = (int)sim::draw_range(2, 4, "threads");
-    int mode = (int)sim::draw(4, "mode");   // 0..2 strict, 3 throwing copy
+    int mode = (int)sim::draw(5, "mode");   // 0..2 strict, 3 throwing copy (push side), 4 the assignment into try_pop's destination throws
     if (mode == 3) pf.throw_at = (int)sim::draw_range(1, 14, "throw_at");
+    if (mode == 4) pf.out_throw_at = (int)sim::draw_range(1, 6, "out_throw_at");
     int prefill = (int)sim::draw(4, "prefill");
-    sim::set_tag("mode=%s", mode == 3 ? "throw" : "strict");
-    d.add(hx::fmt("concurrent_priority_queue mode=%s throw_at=%d prefill=%d", mode == 3 ? "throw" : "strict", pf.throw_at, prefill));
+    const char* mt = mode == 3 ? "throw" : mode == 4 ? "throw-out" : "strict";
+    sim::set_tag("mode=%s", mt);
+    d.add(hx::fmt("concurrent_priority_queue mode=%s throw_at=%d out_throw_at=%d prefill=%d", mt, pf.throw_at, pf.out_throw_at, prefill));
     std::vector<std::vector<Plan>> plan(nthreads);
     int total = 0;
     for (int t = 0; t < nthreads; ++t) {
@@ -80,9 +85,12 @@ SIM_SCENARIO(scen_c13, "c13", "C13", 600000, 3000) {
                 try {
                     if (p.k == PUSH) { Item it(p.prio, id); q.push(it); }
                     else if (p.k == EMPLACE) q.emplace(p.prio, id);
-                    else { Item out; e.op.ok = q.try_pop(out); e.op.prio = out.prio; e.op.id = e.op.ok ? out.id : 0; }
-                } catch (pq_throw&) { record = false; ++threw; }   // reaches the caller of that operation only; no effect
-                catch (std::bad_alloc&) { record = false; ++threw; SIM_CHECK(mode == 3, "oracle:spurious-exception", "bad_alloc from an operation although nothing threw"); }
+                    else { Item out; out.is_out = true; e.op.ok = q.try_pop(out); e.op.prio = out.prio; e.op.id = e.op.ok ? out.id : 0; }
+                } catch (pq_throw&) {   // reaches the caller of that operation only; no effect
+                    record = false; ++threw;
+                    if (mode == 4) SIM_CHECK(p.k == TRY_POP, "oracle:wrong-caller", "[mode=%s] the exception thrown by the assignment into a try_pop's destination reached the caller of a %s", mt, kOp[p.k]);
+                }
+                catch (std::bad_alloc&) { record = false; ++threw; SIM_CHECK(mode >= 3, "oracle:spurious-exception", "bad_alloc from an operation although nothing threw"); }
                 e.res = sim::step();
                 if (record) hist.push_back(e);
             }
@@ -99,7 +107,6 @@ SIM_SCENARIO(scen_c13, "c13", "C13", 600000, 3000) {
     }
     std::map<uint64_t, int> pushed, popped;
     for (auto& e : hist) { if (e.op.k != TRY_POP) pushed[e.op.id]++; else if (e.op.ok) popped[e.op.id]++; }
-    const char* mt = mode == 3 ? "throw" : "strict";
     for (auto& kv : popped) {
         SIM_CHECK(pushed.count(kv.first), "oracle:invented-item", "[mode=%s] element %llu popped but never pushed (or its push reported an exception)", mt, (unsigned long long)kv.first);
         SIM_CHECK(kv.second == 1, "oracle:duplicate-item", "[mode=%s] element %llu popped %d times", mt, (unsigned long long)kv.first, kv.second);
